@@ -798,6 +798,70 @@ def rule_scope_exit_unconditional(ck, facts, R="C12.pairing"):
     ck.floor(R, "scope_exit_release_arms", n, 1)
 
 
+
+def rule_guard_set(ck, facts, R="C12.pairing"):
+    """every guarded retain / release asks about both kinds of reference-counted values"""
+    from ..cfg import DefIndex
+
+    lang = facts.crate(roles.LANG)
+    W = walkers_by_role(facts)
+    cl, rel = W.get("clone"), W.get("release")
+    if cl is None or rel is None:
+        return
+    sites = []
+    for f in lang.fns:
+        if "::compiler::mirgen" not in f.path or f.kind == "promoted" or f.path in (cl.path, rel.path):
+            continue
+        cs = [(b, t) for b, t in f.calls() if (callee(t) or "") in (cl.path, rel.path)]
+        if not cs:
+            continue
+        di = DefIndex(f)
+        # switch blocks that test the answer of a `Type::contains_*` predicate
+        tests = {}
+        for d in range(f.nblocks()):
+            tt = f.term(d)
+            if not f.is_cleanup(d) and tt[KIND] == "switch" and tt[4][0] in ("cp", "mv"):
+                r = di.resolve(tt[4])
+                if r[0] == "call" and "contains_" in (callee(r[1]) or "").split("::")[-1]:
+                    tests[d] = (callee(r[1]) or "").split("::")[-1]
+        for b, t in cs:
+            # backwards from the site through at most a handful of blocks: the tests of one `a() || b()` condition
+            guard = set()
+            seen = {b}
+            frontier = [(b, 0)]
+            while frontier:
+                x, dist = frontier.pop()
+                for p in f.preds(x):
+                    if p in seen or f.is_cleanup(p) or dist >= 5:
+                        continue
+                    seen.add(p)
+                    if p in tests:
+                        guard.add(tests[p])
+                        frontier.append((p, dist + 1))
+                    elif f.term(p)[KIND] in ("goto", "call", "drop") and not any((callee(f.term(p)) or "") in (cl.path, rel.path) for _ in [0] if f.term(p)[KIND] == "call"):
+                        frontier.append((p, dist + 1))
+            sites.append((f, t, "retain" if (callee(t) or "") == cl.path else "release", guard))
+    full = set()
+    for _, _, _, g in sites:
+        full |= g
+    n = 0
+    seen_keys = {}
+    for f, t, kind, g in sites:
+        if not g:
+            continue
+        n += 1
+        owner = f.root.split("::")[-1]
+        key = "guard-set|%s|%s" % (owner, kind)
+        seen_keys[key] = seen_keys.get(key, 0) + 1
+        if seen_keys[key] > 1:
+            key += "#%d" % seen_keys[key]
+        if g >= full:
+            ck.ok(R, key, {"site": owner, "asks": sorted(g)})
+        else:
+            ck.bad(R, key, "%s %ss a value only if its type %s, while the other guarded sites of the generator also ask %s: values of the kind that is not asked about are handed on without their own reference (a closure passed as an argument is then freed by the first owner that lets go of it while others still hold it — `Invalid Closure Id`), or never given back" % (f.short, kind, " or ".join(sorted(g)), " / ".join(sorted(full - g))), f.where(t))
+    ck.floor(R, "guarded_refcount_sites", n, 2)
+
+
 def rule_release_order(ck, facts, R="C12.offsets"):
     """what a dying object owns is read before the object is given back"""
     from ..cfg import dominators
@@ -846,6 +910,7 @@ def run(ck, facts, tier):
     rule_pairing(ck, facts, None)
     rule_projection_clone(ck, facts)
     rule_scope_exit_unconditional(ck, facts)
+    rule_guard_set(ck, facts)
     rule_walker_recursion(ck, facts)
     rule_vm_walker_offsets(ck, facts)
     rule_release_order(ck, facts)
